@@ -30,7 +30,7 @@ pub struct Extra {
     pub source: u8,
     pub len: usize,
 }
-fn extra_content(e: &Extra) -> Vec<u8> {
+pub(crate) fn extra_content(e: &Extra) -> Vec<u8> {
     if e.source == 1 {
         return vec![];
     }
@@ -41,6 +41,19 @@ fn extra_content(e: &Extra) -> Vec<u8> {
 pub struct Workload {
     pub leaves: Vec<Leaf>,
     pub extras: Vec<Extra>,
+    /// 0 = consume the stream directly; 1 tar, 2 zip, 3 tar.gz: hand it to gix-archive (see archive.rs)
+    #[serde(default)]
+    pub archive: u8,
+    #[serde(default)]
+    pub archive_prefix: bool,
+    /// the archive sink accepts at most this many bytes per write (0 = all) and reports `Interrupted` every n-th call
+    #[serde(default)]
+    pub sink_chunk: usize,
+    #[serde(default)]
+    pub sink_intr_every: usize,
+    /// also compare with `git archive` of the same tree
+    #[serde(default)]
+    pub git_compare: bool,
     pub read_buf: usize,
     /// stop after this many entries (None = all); `mid_entry` = drop while inside the next entry
     pub take: Option<usize>,
@@ -52,23 +65,23 @@ pub struct Workload {
     pub sched: Value,
 }
 
-fn content(l: &Leaf) -> Vec<u8> {
+pub(crate) fn content(l: &Leaf) -> Vec<u8> {
     if l.kind == 2 {
         return format!("target-{}", l.seed % 1000).into_bytes();
     }
     let mut r = Rng::new(l.seed);
     (0..l.len).map(|i| if i % 64 == 63 { b'\n' } else { b'a' + (r.below(26) as u8) }).collect()
 }
-fn hash(kind: gix_object::Kind, d: &[u8]) -> ObjectId {
+pub(crate) fn hash(kind: gix_object::Kind, d: &[u8]) -> ObjectId {
     gix_object::compute_hash(gix_hash::Kind::Sha1, kind, d)
 }
 
 #[derive(Clone)]
-struct FaultyFind {
-    objs: Arc<BTreeMap<ObjectId, (gix_object::Kind, Vec<u8>)>>,
-    calls: Arc<AtomicUsize>,
-    fail_at: Option<usize>,
-    missing: bool,
+pub(crate) struct FaultyFind {
+    pub objs: Arc<BTreeMap<ObjectId, (gix_object::Kind, Vec<u8>)>>,
+    pub calls: Arc<AtomicUsize>,
+    pub fail_at: Option<usize>,
+    pub missing: bool,
 }
 impl gix_object::Find for FaultyFind {
     fn try_find<'a>(&self, id: &gix_hash::oid, buffer: &'a mut Vec<u8>) -> Result<Option<gix_object::Data<'a>>, gix_object::find::Error> {
@@ -92,7 +105,7 @@ impl gix_object::Find for FaultyFind {
 }
 
 /// Build the tree objects bottom-up; returns (root id, objects).
-fn build_tree(leaves: &[Leaf]) -> (ObjectId, BTreeMap<ObjectId, (gix_object::Kind, Vec<u8>)>) {
+pub(crate) fn build_tree(leaves: &[Leaf]) -> (ObjectId, BTreeMap<ObjectId, (gix_object::Kind, Vec<u8>)>) {
     use gix_object::WriteTo;
     let mut objs = BTreeMap::new();
     #[derive(Default)]
@@ -249,9 +262,35 @@ fn generate(seed: u64) -> Workload {
     }
     let faulty = r.chance(300);
     let streamed = leaves.iter().filter(|l| l.kind != 3).count();
+    // a quarter of the runs hand the stream to gix-archive instead (archive.rs); its own knobs come from their own stream
+    let mut ar = Rng::stream(seed, 77);
+    let archive = if ar.chance(250) { 1 + ar.below(3) as u8 } else { 0 };
+    if archive != 0 {
+        return Workload {
+            leaves,
+            extras,
+            archive,
+            archive_prefix: ar.chance(500),
+            sink_chunk: *ar.pick(&[0usize, 0, 1, 7, 511, 513, 4096, 4096]),
+            sink_intr_every: *ar.pick(&[0usize, 0, 3, 50]),
+            git_compare: ar.chance(400),
+            read_buf: 4096,
+            take: None,
+            mid_entry: false,
+            find_fail_at: None,
+            find_missing: false,
+            attr_fail_at: None,
+            sched: super::swarm_policy_edges(&mut sw, 200, 4_000),
+        };
+    }
     Workload {
         leaves,
         extras,
+        archive: 0,
+        archive_prefix: false,
+        sink_chunk: 0,
+        sink_intr_every: 0,
+        git_compare: false,
         read_buf: *r.pick(&[1usize, 7, 64, 4096, 70_000]),
         take: if !faulty && r.chance(300) { Some(r.usize_below(streamed + 2)) } else { None },
         mid_entry: r.chance(500),
@@ -270,10 +309,10 @@ impl Scenario for WtStream {
         &[P]
     }
     fn jobs_hint(&self) -> usize {
-        2
+        4
     }
     fn runs(&self, tier: Tier, _p: &str) -> u64 {
-        super::tier_pick(tier, 8_000, 600_000)
+        super::tier_pick(tier, 6_000, 600_000)
     }
     fn generate(&self, seed: u64, _t: Tier, _p: &str) -> Value {
         serde_json::to_value(generate(seed)).unwrap()
@@ -287,6 +326,9 @@ impl Scenario for WtStream {
                 return rep;
             }
         };
+        if w.archive != 0 {
+            return super::archive::execute(&w, ctx, wv);
+        }
         let (root, objs) = build_tree(&w.leaves);
         let find = FaultyFind { objs: Arc::new(objs), calls: Arc::new(AtomicUsize::new(0)), fail_at: w.find_fail_at, missing: w.find_missing };
         let sh = Arc::new(Shared::default());
